@@ -2,8 +2,9 @@ package c20
 
 // Registry lists the harness entry points of this package for native replay.
 var Registry = map[string]func([]int64){
-	"HarnessValidate":    func(a []int64) { HarnessValidate() },
-	"HarnessNoDbSection": func(a []int64) { HarnessNoDbSection() },
-	"HarnessPrecedence":  func(a []int64) { HarnessPrecedence(int(a[0])) },
-	"HarnessTwoKeys":     func(a []int64) { HarnessTwoKeys(int(a[0]), int(a[1])) },
+	"HarnessValidate":       func(a []int64) { HarnessValidate() },
+	"HarnessNoDbSection":    func(a []int64) { HarnessNoDbSection() },
+	"HarnessPrecedence":     func(a []int64) { HarnessPrecedence(int(a[0])) },
+	"HarnessTwoKeys":        func(a []int64) { HarnessTwoKeys(int(a[0]), int(a[1])) },
+	"HarnessKeyAndFixedKey": func(a []int64) { HarnessKeyAndFixedKey(int(a[0]), int(a[1])) },
 }
